@@ -306,6 +306,17 @@ func (e *c09Env) derive(fn, which string) string {
 	if which == "A" {
 		v = e.A
 	}
+	if which == "X" {
+		v = e.X
+	}
+	if strings.HasPrefix(fn, "pad") { // the value padded to n bytes (a bearer value of that length)
+		n := 0
+		fmt.Sscanf(fn[3:], "%d", &n)
+		if n > len(v) {
+			return v + strings.Repeat("p", n-len(v))
+		}
+		return v + "p"
+	}
 	switch fn {
 	case "sha256":
 		h := sha256.Sum256([]byte(v))
@@ -984,6 +995,20 @@ func runC09(c *Ctx) error {
 				}
 				for _, h := range []string{"=Bearer $U", "=Bearer $X", "=Bearer $R", "=Bearer $A", "=Bearer ${sha256:U}", "=Bearer ${rawnulx:A}", "=Bearer ${upper:U}"} {
 					one(ws, h, "ws-check", "")
+				}
+			}
+		}
+		if k.auth && k.plain() && !k.fail {
+			// LONG bearer values (255 / 256 / 257 / 1000 / 70000 bytes; a never issued value and a valid token padded):
+			// not credentials - 401 like any other unknown value, on every route class
+			for _, r := range e.routes {
+				if !(rep4(r) || k.String() == "100" && strings.HasPrefix(r.Path, "/api/v1") && !c09Slow(r)) {
+					continue
+				}
+				for _, n := range []int{255, 256, 257, 1000, 70000} {
+					for _, which := range []string{"X", "U"} {
+						one(r, fmt.Sprintf("=Bearer ${pad%d:%s}", n, which), "long-bearer", "")
+					}
 				}
 			}
 		}
